@@ -19,7 +19,11 @@ class FuncInfo:
 
     @property
     def is_property(self):
-        return "property" in self.decorators
+        return "property" in self.decorators or "cached_property" in self.decorators
+
+    @property
+    def is_cached_property(self):
+        return "cached_property" in self.decorators
 
     @property
     def is_classmethod(self):
